@@ -39,9 +39,15 @@ CLAIMED = {
           "chunked-delivery model.",
           "DESIGN.md 7 C04", "Lean 4 proof of the L3 interleaving model + trace monitors + differential correspondence (conv, sched probes)",
           "reply count/order per command is tied by the correspondence with the model, not yet by a theorem; echoed client octets in reply text are a design-phase finding not yet judged"),
- "C05": C("Bait/marker and delivery-record monitors on all chunkings of short messages, every refusal with payload on the wire, LF-free runs around "
-          "the line limit, under 3-4 segmentations; correspondence with the server model.",
-          "DESIGN.md 7 C05", CONV, "framing theorem C05_frame on the wire model not yet proved; one known finding (line limiter below bufio)"),
+ "C05": C("Proved on the wire model (segments below bufio below the limiter): C05_refused_chunk_discarded (a refused BDAT with its n declared "
+          "octets on a live connection: exactly those n octets are skipped - the next command line starts at octet n of the stream - and the line "
+          "limit is back in force), C05_failed_chunk_skipped (copy as far as the delivery takes it, discard the rest: exactly n), "
+          "C05_frame_any_source (whatever source and backend do, what was taken is a prefix of n - left octets), C05_segmentation_independent "
+          "(same stream, any segmentation and buffer content => same position afterwards). Implementation: bait/marker and delivery-record monitors "
+          "on all chunkings of short messages (binary, look-alikes, zero-size chunks), every refusal with payload on the wire, backends that give up "
+          "early, LF-free runs around the line limit, under 3-5 segmentations; correspondence with the server model.",
+          "DESIGN.md 0.3 + 7 C05", "Lean 4 proof (octet-count framing on the wire model) + monitors + differential correspondence (conv probe)",
+          "that the octets handed to the backend are the payloads' concatenation with EOF only after LAST, and one reply per BDAT, are decided by the monitors and the correspondence (and one reply per command by C03's theorem on the model); one known finding (line limiter below bufio)"),
  "C06": C("C06_bound_data (never more than N octets for ANY input), C06_oversize_never_complete, C06_transparent proved for every stream and "
           "schedule; BDAT accounting and SIZE parameter judged on conversations around the limit.",
           "DESIGN.md 7 C06", "Lean 4 proof (DATA reader) + monitors and differential correspondence (dr, conv probes)",
@@ -124,7 +130,7 @@ CLAIMED = {
 }
 # properties whose check audits at least one machine-checked theorem today (the others are claimed at the level of
 # their correspondence/monitor check until their theorems land)
-PROVED = {"C01", "C02", "C03", "C04", "C06", "C07", "C08", "C09", "C10", "C12", "C13", "C14", "C15", "C16", "C17", "C18", "C19", "C20"}
+PROVED = {"C01", "C02", "C03", "C04", "C05", "C06", "C07", "C08", "C09", "C10", "C12", "C13", "C14", "C15", "C16", "C17", "C18", "C19", "C20"}
 NA_REASON = "check not built yet (work in progress, see DESIGN.md section 10)"
 
 m = {"version": 1, "setup_cmd": "./setup.sh",
